@@ -15,7 +15,10 @@ use std::fmt::Display;
 use std::{collections::HashSet, fmt::Debug};
 
 /// Threshold for using parallel CPU implementation
+#[cfg(not(feature = "verif-hooks"))]
 const PARALLEL_THRESHOLD_NUM_QUBITS: usize = 10;
+#[cfg(feature = "verif-hooks")]
+use crate::verif_hooks::PARALLEL_THRESHOLD as PARALLEL_THRESHOLD_NUM_QUBITS;
 
 /// Threshold for using OpenCL (GPU acceleration)
 const OPENCL_THRESHOLD_NUM_QUBITS: usize = 15;
